@@ -17,6 +17,7 @@ import (
 	envoy "github.com/envoyproxy/go-control-plane/envoy/service/auth/v3"
 	"google.golang.org/grpc"
 	"google.golang.org/grpc/credentials/insecure"
+	"google.golang.org/grpc/metadata"
 	"google.golang.org/protobuf/encoding/protojson"
 
 	configv1 "github.com/istio-ecosystem/authservice/config/gen/go/v1"
@@ -165,4 +166,44 @@ func (p *IdP) ServeOnLoopback() func() {
 	srv := &http.Server{Handler: p, ReadHeaderTimeout: 30 * time.Second}
 	go func() { _ = srv.Serve(l) }()
 	return func() { _ = srv.Close() }
+}
+
+// Alive reports whether the service process is still running.
+func (s *Service) Alive() bool {
+	select {
+	case <-s.exited:
+		return false
+	default:
+		return true
+	}
+}
+
+// LogTail returns the end of the process output (panic traces end up there).
+func (s *Service) LogTail(n int) string {
+	if s.logf == nil {
+		return ""
+	}
+	b, _ := os.ReadFile(s.logf.Name())
+	if len(b) > n {
+		b = b[len(b)-n:]
+	}
+	return string(b)
+}
+
+// CheckRaw sends an arbitrary CheckRequest with optional gRPC metadata.
+func (s *Service) CheckRaw(req *envoy.CheckRequest, md map[string]string) *Resp {
+	r := &Resp{}
+	ctx, cancel := context.WithTimeout(context.Background(), 20*time.Second)
+	defer cancel()
+	if len(md) > 0 {
+		kv := []string{}
+		for k, v := range md {
+			kv = append(kv, k, v)
+		}
+		ctx = metadata.AppendToOutgoingContext(ctx, kv...)
+	}
+	resp, err := s.client.Check(ctx, req)
+	r.Err = err
+	ParseResp(r, resp)
+	return r
 }
